@@ -114,7 +114,10 @@ def family():
                stype('tb', [key('kb')], implements='aa'),
                stype('tc', [key('kc')], implements='aa', datatype=WRAP2),
                stype('td', [key('kd')], extends='tc')],
-        items=[section('aa', 'sa'), multisection('aa', '*', attr='xs'), multisection('td', '+', attr='ds')])
+        items=[section('aa', 'sa'), multisection('aa', '*', attr='xs'), multisection('td', '+', attr='ds'),
+               # a slot of an implementing concrete type declared AFTER the abstract wildcard slot:
+               # first fit in declaration order means it is never reached by unnamed/any-named <tb>
+               section('tb', '*', attr='tb1')])
     # a wildcard slot declared before a fixed-name slot of the same type (declaration order decides),
     # empty-string defaults, a schema-level datatype
     F['S14'] = schema(
@@ -123,6 +126,8 @@ def family():
         items=[multisection('ta', '*', attr='rest'),
                section('ta', 'sa'),
                section('tb', 'sb'),
+               # a '+' key declared BEFORE declared keys and before a '+' section slot
+               key('+', attr='any'),
                multisection('tb', '+', attr='bs'),
                key('kx', default=''), key('ky', 'basic-key', default='Ab')],
         datatype=WRAP)
